@@ -78,6 +78,52 @@ Proof.
       lia.
 Qed.
 
+(* the reduced ratio is in lowest terms *)
+Lemma ratio_div_coprime from to : wf_dty from -> wf_dty to ->
+  Z.gcd (fst (ratio_div from to)) (snd (ratio_div from to)) = 1.
+Proof.
+  intros [Hfn Hfd] [Htn Htd]. unfold ratio_div. cbn [fst snd].
+  apply Z.gcd_div_gcd; [|reflexivity].
+  intros E. apply Z.gcd_eq_0_l in E. nia.
+Qed.
+
+(* every ratio, the general one (num >= 2 and den >= 2, repaired in /repo: K45) included *)
+Theorem safe_cast_correct_all from to c :
+  rep4 (d_rep from) -> rep4 (d_rep to) -> wf_dty from -> wf_dty to ->
+  d_num from * d_den to <= 4611686018427387904 -> d_den from * d_num to <= 4611686018427387904 ->
+  fits (d_rep from) c = true -> cast_spec from to c.
+Proof.
+  intros Hsr Htr Hwf Hwt Hbn Hbd Hc.
+  destruct (ratio_div_props from to Hwf Hwt) as (g & Hg & En & Ed & Bn & Bd).
+  pose proof (ratio_div_coprime from to Hwf Hwt) as Hcop.
+  destruct (Z.eq_dec (fst (ratio_div from to)) 1) as [E1|E1];
+    [apply safe_cast_correct; try assumption; left; exact E1|].
+  destruct (Z.eq_dec (snd (ratio_div from to)) 1) as [E2|E2];
+    [apply safe_cast_correct; try assumption; right; exact E2|].
+  unfold cast_spec. rewrite safe_cast_unfold.
+  destruct (dty_eqb from to) eqn:Eeq.
+  { apply dty_eqb_eq in Eeq. subst to. split; [exact Hc | unfold exact_cast; ring]. }
+  destruct (ratio_div from to) as [num den]. cbn [fst snd] in *.
+  assert (Hex : forall v, exact_cast from to c v <-> v * den = c * num).
+  { intros v. unfold exact_cast. rewrite En, Ed. split; intros H; nia. }
+  replace (den =? 1) with false by lia. replace (num =? 1) with false by lia.
+  rewrite scD_spec; try assumption; try lia.
+  pose proof (Z.quot_rem' c den) as Eq. pose proof (Z.rem_bound_abs c den ltac:(lia)) as Br.
+  set (q := Z.quot c den) in *. set (r := Z.rem c den) in *. clearbody q r.
+  destruct (Z.eqb_spec r 0) as [Er|Er]; cbn [andb].
+  - destruct (fits (d_rep to) (q * num)) eqn:Ef.
+    + split; [exact Ef | apply Hex; nia].
+    + intros v Hv Hx. apply Hex in Hx. assert (v = q * num) by nia. subst v. congruence.
+  - intros v Hv Hx. apply Hex in Hx. apply Er.
+    assert (Hdiv : (den | c)).
+    { apply (Z.gauss den num c); [exists v; lia|]. rewrite Z.gcd_comm. exact Hcop. }
+    destruct Hdiv as [k Hk].
+    assert (Hr : r = (k - q) * den) by lia.
+    destruct (Z.eq_dec k q) as [->|Hne]; [lia|].
+    assert (den <= Z.abs ((k - q) * den)) by (rewrite Z.abs_mul, (Z.abs_eq den) by lia; nia).
+    lia.
+Qed.
+
 (* a returned value always lies in the target representation *)
 Lemma safe_cast_ok_fits from to c v : fits (d_rep from) c = true -> safe_cast from to c = Ok v -> fits (d_rep to) v = true.
 Proof.
